@@ -42,6 +42,7 @@ class Key(enum.Enum):
             index = MusicMapping.key_transpose_order.index(key)
             index = (index + transpose_by) % 12
             return MusicMapping.key_transpose_order[index]
+        return key
 
 
 class CircleOfFifths:
